@@ -118,6 +118,8 @@ def seg_size(s) -> "SizeV":
     if s[0] in ("DT", "ONE"):
         return SizeV.const(1)
     if s[0] in ("SORT", "UNORD"):
+        if isinstance(s[1], tuple) and s[1] and s[1][0] == "UNION":
+            return SizeV.of(s[1])
         return SizeV.of(s[1])
     if s[0] in ("PRIME", "REV"):
         return seg_size(s[1])
